@@ -234,7 +234,36 @@ function __session(steps, adv) {
   __slots = [];
   return out.join(" ");
 }
+// a grid over the codec entry points of Buffer: every (entry point, size, hostile string, encoding name) once per
+// process -- random sessions reach a particular triple like (5, "zz", "hex") far too rarely
+var __gridSizes = [0, 1, 2, 5];
+var __gridStrs = ["", "a", "zz", "6162zz", "!", "=", "==", "\r\n", "\r\n\r\n\r\n\r\nAQID", "YQ==", "YQ", "Y", "_-8", "\u00e9", "\ud800", "%", "abc", "0", "00", "0g",
+                  "a\u20ac\u20ac", "\ud83d\ude00"];
+var __gridEncs = [undefined, "hex", "base64", "base64url", "utf8", "utf-8", "latin1", "binary", "ascii", "ucs2", "utf16le", "HEX", "nope", "", null, 7];
+var __gridFns = [
+  function (n, s, e) { return Buffer.alloc(n, s, e); },
+  function (n, s, e) { return Buffer.from(s, e); },
+  function (n, s, e) { return Buffer.alloc(n + 2).write(s, 0, n, e); },
+  function (n, s, e) { return Buffer.alloc(n).write(s, e); },
+  function (n, s, e) { return Buffer.from(s).toString(e, 0, n); },
+  function (n, s, e) { return __bufmod.Buffer.from(Buffer.from(s, e)).toString(e); },
+  function (n, s, e) { return Buffer.alloc(n + 1).write(s, n, e); }
+];
+function __gridCount() { return __gridFns.length * __gridSizes.length * __gridStrs.length * __gridEncs.length; }
+function __gridRun(k) {
+  var f = __gridFns[k % __gridFns.length]; k = Math.floor(k / __gridFns.length);
+  var n = __gridSizes[k % __gridSizes.length]; k = Math.floor(k / __gridSizes.length);
+  var s = __gridStrs[k % __gridStrs.length]; k = Math.floor(k / __gridStrs.length);
+  var e = __gridEncs[k % __gridEncs.length];
+  try { var r = f(n, s, e); if (r && typeof r === "object") String(r); return "ok"; }
+  catch (ex) {
+    var msg = ex && ex.message !== undefined ? String(ex.message) : String(ex);
+    if (/runtime error|nil pointer|index out of range|slice bounds|makeslice|close of|invalid memory/.test(msg)) return "GOERROR " + msg.replace(/\s+/g, "_");
+    return "throw:" + ((ex instanceof Error) ? (String(ex.name).replace(/[^A-Za-z0-9_\[\]]/g, "_") || "Error") : "nonError");
+  }
+}
 function __run(tname, thisIdx, argIdx) {
+  if (tname === "grid.codec") return __gridRun(thisIdx);
   var t = __targets[tname];
   if (!t) return "notarget";
   var res;
@@ -567,6 +596,21 @@ func main() {
 	for ; i < len(names) && i < *n; i++ {
 		c := ccase{Steps: []step{{T: names[i], This: -2, Args: []int{}}}}
 		remember(c, f.emit(c))
+	}
+	// then the codec grid (see the prelude): cheap, and the same in every process
+	if *n > len(names) {
+		var ng int
+		gd := make(chan struct{})
+		loop.RunOnLoop(func(vm *goja.Runtime) {
+			v, _ := vm.RunString("__gridCount()")
+			ng = int(v.ToInteger())
+			close(gd)
+		})
+		<-gd
+		for k := 0; k < ng; k++ {
+			f.emit(ccase{Steps: []step{{T: "grid.codec", This: k, Args: []int{}}}})
+			f.st.Hit("gen:grid")
+		}
 	}
 	for ; i < *n; i++ {
 		var c ccase
